@@ -15,8 +15,8 @@ YOUR TASK: produce ONE realistic change to the source code in {wt} that BREAKS t
 Requirements for the change:
 - It must need something SPECIFIC to manifest: a particular interleaving, a crash or fault at a particular point, a multi-step sequence of operations, an unusual but legal input, or two cooperating sites that each look fine alone. It must NOT be exposed at once by ordinary use (e.g. not "always return an error", not something every existing test would hit).
 - It should look like a plausible mistake or an innocent-looking refactoring/optimisation a developer could make (off-by-one, dropped condition in a rare branch, wrong variable, reordered writes, skipped cleanup, cached value not invalidated, boundary comparison, etc.), small (a few lines), in non-test code, not guarded by build tags, and not touching any file named *_verif.go or the package go/common/verifhook (you may leave the existing verifhook.At(...) call lines where they are; do not add or remove them).
-- The existing tests must still pass: at least `go build ./...` and `go vet` of the touched packages in {wt}/go, and `go test -count=1` of every package you touched and of the packages that directly use the changed code (use: cd {wt}/go && GOFLAGS=-mod=mod GOPROXY=off go test -count=1 ./path/...). Note: the machine is heavily loaded; timing-based tests (e.g. storage/mkvs/checkpoint TestCheckpointer) may fail for load reasons even without your change — verify by `git stash` comparison before blaming your change.
-- Provide a DEMONSTRATION: a new Go test file (or small program) that FAILS (or shows the broken property) with your change and PASSES without it. Put it at {wt}/demo/ (e.g. {wt}/demo/demo_test.go copied next to the package under test when it needs package-internal access — say exactly where it must be placed and the exact command to run it). Verify both directions yourself (with the change: fails; after `git stash` of the source change: passes).
+- The existing tests must still pass: at least `go build ./...` and `go vet` of the touched packages in {wt}/go, and `go test -count=1` of every package you touched and of the packages that directly use the changed code (use: cd {wt}/go && GOFLAGS=-mod=mod GOPROXY=off go test -count=1 ./path/...). Note: the machine is heavily loaded; timing-based tests (e.g. storage/mkvs/checkpoint TestCheckpointer) may fail for load reasons even without your change — verify by comparing with and without your change before blaming it. NEVER use `git stash` (the stash is shared between worktrees of this repository and other people use it): save your change with `git diff > demo/patch.diff` and switch with `git apply -R demo/patch.diff` / `git apply demo/patch.diff`.
+- Provide a DEMONSTRATION: a new Go test file (or small program) that FAILS (or shows the broken property) with your change and PASSES without it. Put it at {wt}/demo/ (e.g. {wt}/demo/demo_test.go copied next to the package under test when it needs package-internal access — say exactly where it must be placed and the exact command to run it). Verify both directions yourself (with the change: fails; after `git apply -R demo/patch.diff`: passes; then re-apply).
 
 DELIVERABLES (write them into {wt}/demo/): patch.diff (output of `git diff` for the source change only, no demo files; it must apply with `git apply` to a clean checkout of the same commit), the demonstration file(s), and meta.json with keys: property ("{pid}"), summary (what the change does, one or two sentences), needs (what specific interleaving / crash point / input / sequence is needed for it to manifest), demo_cmd (exact command to run the demonstration from {wt}/go or {wt}), tests_run (list of the test commands you ran and their outcome).
 Leave the source change applied in the worktree (uncommitted) when you finish. Do not commit. Final answer: a brief description of the change, why it breaks the property, what it needs to manifest, and the commands you ran.""")
